@@ -271,6 +271,13 @@ func (proof *RangeProof) _computeRootHash() (rootHash []byte, treeEnd bool, err 
 			inners, rinnersq := innersq[0], innersq[1:]
 			innersq = rinnersq
 
+			// The next leaf must be the leftmost leaf of this right subtree: everything to its left
+			// has to be a leaf of the proof. A left sibling hash on its path would hide keys between
+			// two leaves the proof presents as adjacent (and "prove" their absence).
+			if !inners.isLeftmost() {
+				return nil, treeEnd, false, errors.Wrap(ErrInvalidProof, "inner path of a non-first leaf has a left sibling")
+			}
+
 			// Recursively verify inners against remaining leaves.
 			derivedRoot, treeEnd, done, err := COMPUTEHASH(inners, rightmost && rpath.isRightmost())
 			if err != nil {
